@@ -3,7 +3,8 @@
    generated inputs followed by the observations recorded from the Go code.
    Verdicts: 0 agree and the property holds on the observation; 1 they differ only on an
    observable the property does not speak about (PrivateRoutingTableFilter, whether the
-   other inner DHT stayed silent during a direct inner lookup); 2 the property fails on
+   other inner DHT stayed silent during a direct inner lookup, the error / recorded
+   providers of an inbound ADD_PROVIDER or GET_PROVIDERS); 2 the property fails on
    the observation or the observation departs from the proved model on a
    property-relevant observable (which is everything else: address scoping, write
    routing, read merging). *)
@@ -50,7 +51,19 @@ Inductive case :=
 | CFindPeer (wresp lresp : list maddr) (wA : list nat) (wErr : option err) (lA : list nat) (lErr : option err)
             (dA : list nat) (dErr : list nat)
 | CProv (count : Z) (o : order) (w l out : list nat)
-| CCombine (a b : option err) (isnil : bool) (sent : list nat).
+| CCombine (a b : option err) (isnil : bool) (sent : list nat)
+(* inbound: the provider-record sites of one inner DHT (this node is peer 0).
+   CInAdd: an ADD_PROVIDER from [sender] with entries [msg], peerstore before = [known];
+     observed: the handler failed, the providers now recorded for the key, the peerstore
+     addresses of every peer involved.
+   CInGet: a GET_PROVIDERS served with [provs] = the recorded providers and their peerstore
+     addresses (ascending peer number); observed: error, the attached records (same order).
+   CInFind: FindProvidersAsync(count) whose responders name [provs]; [conn] = connected
+     peers; observed: the peerstore addresses of every peer involved. *)
+| CInAdd (s : side) (key_ok : bool) (sender : nat) (msg known : list pentry)
+         (err : bool) (recorded : list nat) (after : list (nat * list nat))
+| CInGet (s : side) (key_ok : bool) (provs : list pentry) (err : bool) (resp : list (nat * list nat))
+| CInFind (s : side) (count : Z) (provs known : list pentry) (conn : list nat) (after : list (nat * list nat)).
 
 Definition err_obs_eqb (m : option err) (obs : list nat) : bool :=
   match m with
@@ -185,6 +198,47 @@ Definition v_combine (a b : option err) (isnil : bool) (sent : list nat) : nat :
   let m := combine_errors a b in
   code true (Bool.eqb (match m with None => true | Some _ => false end) isnil && err_obs_eqb m sent) true.
 
+(* ---- inbound provider messages --------------------------------------------------------------------------- *)
+Definition keepf (s : side) (a : maddr) : bool :=
+  match s with WAN => manet_is_public a | LAN => negb (is_ip_loopback a) end.
+Definition addrs_of (q : nat) (l : list pentry) : list maddr :=
+  flat_map (fun e => if Nat.eqb (pe_id e) q then pe_addrs e else []) l.
+Definition writes_of (q : nat) (w : list (nat * maddr)) : list maddr :=
+  flat_map (fun qa => if Nat.eqb (fst qa) q then [snd qa] else []) w.
+(* the property on one peer's peerstore entry: every address that was not there before is
+   one the message gave for this very peer and passes the DHT's address filter *)
+Definition peer_prop (s : side) (msg known : list pentry) (qa : nat * list nat) : bool :=
+  let learnt := filter (fun i => negb (mem i (map a_id (addrs_of (fst qa) known)))) (snd qa) in
+  all_ids (addrs_of (fst qa) msg) (keepf s) learnt.
+Definition peer_expect (known : list pentry) (w : list (nat * maddr)) (q : nat) : list nat :=
+  ids (addrs_of q known ++ writes_of q w).
+Definition peer_rel (known : list pentry) (w : list (nat * maddr)) (qa : nat * list nat) : bool :=
+  list_eqb Nat.eqb (peer_expect known w (fst qa)) (snd qa).
+
+Definition v_in_add (s : side) (key_ok : bool) (sender : nat) (msg known : list pentry)
+    (err : bool) (recorded : list nat) (after : list (nat * list nat)) : nat :=
+  let w := add_provider_writes s key_ok 0 sender msg in
+  code (forallb (peer_prop s msg known) after)
+       (forallb (peer_rel known w) after)
+       (Bool.eqb err (add_provider_err s key_ok sender msg)
+        && list_eqb Nat.eqb recorded (sort_nat (add_provider_recorded s key_ok sender msg))).
+
+Definition v_in_get (s : side) (key_ok : bool) (provs : list pentry) (err : bool) (resp : list (nat * list nat)) : nat :=
+  let m := get_providers_attached s key_ok (length provs) provs in
+  code (forallb (fun qr => all_ids (addrs_of (fst qr) provs) (keepf s) (snd qr)) resp)
+       (list_eqb (fun x y => Nat.eqb (fst x) (fst y) && list_eqb Nat.eqb (snd x) (snd y))
+                 (map (fun r => (pe_id r, ids (pe_addrs r))) m) resp)
+       (Bool.eqb err (negb key_ok)).
+
+Definition v_in_find (s : side) (count : Z) (provs known : list pentry) (conn : list nat) (after : list (nat * list nat)) : nat :=
+  let w := find_providers_writes s 0 (fun q => mem q conn) provs in
+  let rel :=
+    if Z.eqb count 0 then forallb (peer_rel known w) after
+    else (* the search may stop before every entry is processed: between what was known and the full expectation *)
+      forallb (fun qa => subset (ids (addrs_of (fst qa) known)) (snd qa)
+                         && subset (snd qa) (peer_expect known w (fst qa))) after in
+  code (forallb (peer_prop s provs known) after) rel true.
+
 Definition verdict (c : case) : nat :=
   match c with
   | CAddr a o n r e pq vq wa la pr vr => v_addr a o n r e pq vq wa la pr vr
@@ -194,6 +248,9 @@ Definition verdict (c : case) : nat :=
   | CFindPeer wr lr wA wE lA lE dA dE => v_findpeer wr lr wA wE lA lE dA dE
   | CProv c o w l out => v_prov c o w l out
   | CCombine a b n s => v_combine a b n s
+  | CInAdd s k sd msg kn e rc af => v_in_add s k sd msg kn e rc af
+  | CInGet s k pv e rs => v_in_get s k pv e rs
+  | CInFind s c pv kn cn af => v_in_find s c pv kn cn af
   end.
 
 Fixpoint verdicts_from (i : nat) (cs : list case) : list (nat * nat) :=
